@@ -1192,4 +1192,6 @@ func TestVerifC26(t *testing.T) {
 		spec, picks := genC26SeqCase(c)
 		runC26Seq(c, spec, picks)
 	})
+	// skipped epochs (zz_verif_c26_skipped_test.go): last, a process-fatal lock error would end the child
+	registerC26Skipped(r)
 }
